@@ -1,7 +1,17 @@
-import Proofs.Encode
-import FixModel.Spec.Codec
+import Proofs.Leaves
 /-!
 # C17 — exactly the populated fields reach the wire, once each, in template order
+
+`C17_wire` gives the wire image of **every** message (any nesting of components and groups, any
+values) field by field; `C17_fields` is the same statement through the independent spec predicate
+`fieldsOKNoTrailer`, the one the check driver evaluates on the implementation's output.
+
+The property as given also covers the trailer component. The library never serializes it
+(`CalcBodyLength` / `BytesWithoutChecksum` do not look at it, and an existing test pins that), so the
+full-strength statement `fieldsOK` holds exactly for messages whose trailer populates nothing
+(`C17_fields_full`) and is **false** for every message that populates a trailer field
+(`C17_trailer_not_serialized`) — the known finding F-C17-trailer, not repaired because the repair
+cannot keep the pinned suite green.
 -/
 
 /-- every public value constructor yields a populated (non-null) value -/
@@ -11,3 +21,92 @@ theorem C17_ctor_valid :
     ∧ (∀ t, (Val.newFloat t).isNull = false) ∧ (∀ t, (Val.newTime t).isNull = false)
     ∧ (∀ b, (Val.newRaw (some b)).isNull = false) := by
   simp [Val.newString, Val.newInt, Val.newUint, Val.newBool, Val.newFloat, Val.newTime, Val.newRaw, Val.isNull]
+
+/-- a field is on the wire iff it is populated: valid (set, constructed non-null, or parsed) and non-empty -/
+theorem C17_kv (k : Bytes) (v : Val) :
+    (Item.kv k v).toBytes = if populated v then some (tagValue k v.text) else none := by
+  rw [Item.toBytes]; exact kvBytes_eq k v
+
+/-- the framing tags contain no delimiter (they are decimal numbers) -/
+def tagsOK (m : Msg) : Prop := SOH ∉ m.bsTag ∧ SOH ∉ m.blTag ∧ SOH ∉ m.mtTag ∧ SOH ∉ m.csTag
+
+/-- the fields of the wire image of a message -/
+def wireOfMsg (m : Msg) : List Bytes :=
+  [tagValue m.bsTag m.bs.text, tagValue m.blTag (natDigits m.calcBodyLength), tagValue m.mtTag m.mt.text]
+    ++ leavesList m.header ++ leavesList m.body
+    ++ [tagValue m.csTag (calcCheckSum ({ m with bl := Val.newInt m.calcBodyLength } : Msg).bytesWithoutChecksum)]
+
+theorem c17Pre_unfold (m : Msg) (h : c17Pre m = true) :
+    listSohFree m.header = true ∧ listSohFree m.body = true ∧ listEntriesNonEmpty m.header = true
+    ∧ listEntriesNonEmpty m.body = true ∧ populated m.bs = true ∧ populated m.mt = true
+    ∧ SOH ∉ m.bs.text ∧ SOH ∉ m.mt.text := by
+  unfold c17Pre at h
+  simp only [Bool.and_eq_true] at h
+  obtain ⟨⟨⟨⟨⟨⟨⟨⟨⟨h1, h2⟩, _⟩, h4⟩, h5⟩, _⟩, h7⟩, h8⟩, h9⟩, h10⟩ := h
+  exact ⟨h1, h2, h4, h5, h7, h8, not_contains h9, not_contains h10⟩
+
+/-- **C17, wire form**: the serialized message splits at SOH into exactly BeginString, BodyLength, MsgType, the
+    populated leaves of header and body in template order — group count fields carrying the number of entries,
+    entries in order — and CheckSum; nothing else, nothing twice -/
+theorem C17_wire (m : Msg) (hp : c17Pre m = true) (ht : tagsOK m) :
+    wireFields m.encode = some (wireOfMsg m) := by
+  obtain ⟨h1, h2, h4, h5, h7, h8, h9, h10⟩ := c17Pre_unfold m hp
+  obtain ⟨t1, t2, t3, t4⟩ := ht
+  rw [encode_fields m h7 h8 h4 h5]
+  apply wireFields_joinF
+  intro g hg
+  simp only [List.mem_append, List.mem_cons, List.not_mem_nil, or_false] at hg
+  rcases hg with (((hg | hg | hg) | hg) | hg) | hg
+  · rw [hg]; exact tagValue_sohFree _ _ t1 h9
+  · rw [hg]; exact tagValue_sohFree _ _ t2 (natDigits_sohFree _)
+  · rw [hg]; exact tagValue_sohFree _ _ t3 h10
+  · exact leavesList_sohFree _ h1 g hg
+  · exact leavesList_sohFree _ h2 g hg
+  · rw [hg]; exact tagValue_sohFree _ _ t4 (calcCheckSum_sohFree _)
+
+/-- **C17 through the spec predicate the driver evaluates on the implementation's output** -/
+theorem C17_fields (m : Msg) (hp : c17Pre m = true) (ht : tagsOK m) : fieldsOKNoTrailer m m.encode = true := by
+  unfold fieldsOKNoTrailer
+  rw [C17_wire m hp ht]
+  simp only [wireOfMsg, List.cons_append, List.nil_append]
+  rw [List.dropLast_concat]
+  simp; omega
+
+/-- full-strength statement, for messages whose trailer populates nothing -/
+theorem C17_fields_full (m : Msg) (hp : c17Pre m = true) (ht : tagsOK m) (hT : leavesList m.trailer = []) :
+    fieldsOK m m.encode = true := by
+  unfold fieldsOK
+  rw [C17_wire m hp ht]
+  simp only [wireOfMsg, List.cons_append, List.nil_append]
+  rw [List.dropLast_concat]
+  simp [hT]; omega
+
+/-- known finding F-C17-trailer, exactly delimited: the full-strength statement fails for *every* message that
+    populates a trailer field -/
+theorem C17_trailer_not_serialized (m : Msg) (hp : c17Pre m = true) (ht : tagsOK m) (hT : leavesList m.trailer ≠ []) :
+    fieldsOK m m.encode = false := by
+  unfold fieldsOK
+  rw [C17_wire m hp ht]
+  simp only [wireOfMsg, List.cons_append, List.nil_append, List.append_assoc]
+  have : ((leavesList m.header ++ (leavesList m.body ++
+      [tagValue m.csTag (calcCheckSum ({ m with bl := Val.newInt m.calcBodyLength } : Msg).bytesWithoutChecksum)])).dropLast
+        == leavesList m.header ++ (leavesList m.body ++ leavesList m.trailer)) = false := by
+    rw [← List.append_assoc, List.dropLast_concat]
+    apply beq_eq_false_iff_ne.mpr
+    intro h
+    have h2 := List.append_cancel_left h
+    have h3 : leavesList m.body ++ [] = leavesList m.body ++ leavesList m.trailer := by simpa using h2
+    exact hT (List.append_cancel_left h3).symm
+  rw [this]
+  simp
+
+/-- non-vacuity: a heartbeat-like message with a group of two entries satisfies the hypotheses -/
+example : c17Pre (Msg.new [56] [57] [49, 48] [51, 53] [70, 73, 88] [48] [.kv [52, 57] (Val.newString [65])]
+      [.kv [49, 49, 50] (Val.newString [66]),
+       .group [49, 52, 54] [.kv [53, 53] (Val.blank .str)] [[.kv [53, 53] (Val.newString [67])], [.kv [53, 53] (Val.newString [68])]]]
+      []) = true := by decide
+
+/-- … and one with a populated trailer field (the finding is about reachable messages) -/
+example : let m := (Msg.new [56] [57] [49, 48] [51, 53] [70, 73, 88] [48] [] [Item.kv [49, 49, 50] (Val.newString [66])]
+      [Item.kv [56, 57] (Val.newString [83])])
+    c17Pre m = true ∧ leavesList m.trailer ≠ [] := by decide
